@@ -21,11 +21,27 @@ RULE = ("G-agree generator (gens_total.agree_ops): every input through the compl
         "(R2) partial = ok (v, n), n > 0 => complete on the first n bytes = ok v (second-stage run). "
         "non-trivial = a byte was consumed (ok, or an error index > 0); distinct = distinct op lines")
 
-TECHNIQUE = ("Lean 4 proof on the model (complete_iff_partial, partial_prefix) + metamorphic correspondence: both relations are "
-             "evaluated on the implementation's own results, the prefix relation by re-running the complete parser")
-LEVEL_TEXT = ("Theorems of LexVerif.Props.C11 state the two relations on the model entry points (see coverage.theorems); the "
-              "correspondence run evaluates both relations on the real crate for every generated input.")
-LEVEL_NOTE = "Trusted: Lean kernel; rustc; that the models mirror the Rust control flow (correspondence only)."
+TECHNIQUE = ("Lean 4 proof on the models: isPartial only selects an error kind inside parse_number; complete_iff_partial and "
+             "partial_prefix (truncation lemma through every phase incl. the many-digits re-parse) under explicit, exact hypotheses, "
+             "decided counter-example witnesses for every excluded class; integers via the C04 specification; + metamorphic "
+             "correspondence: both relations are evaluated on the implementation's own results, the prefix relation by re-running "
+             "the complete parser")
+LEVEL_TEXT = ("Props/C11.lean (float syntax model, every feature set): complete_of_partial (<=) and partial_of_complete for number/zero "
+              "results hold for EVERY format with no hypothesis; the => direction for special values and complete_iff_partial hold "
+              "exactly under NoShadow (shadow_disagree: its negation yields a real disagreement), syntactically: required mantissa "
+              "digits, no separator byte, first byte of each special string not a mantissa digit / decimal point "
+              "(complete_iff_partial_syntactic). partial_prefix_contiguous: partial s = ok (v,n) => complete (s.take n) = ok v for "
+              "every build without a digit-separator byte (non-format builds and all separator-free formats; prefix, suffix, all "
+              "flags allowed), number results unconditionally, special results under SpecialHeadsOK; partial_prefix_model at the API "
+              "level. Both full statements are FALSE (not_complete_iff_partial_full, not_partial_prefix_full) with decided witnesses: "
+              "digits not required ('NaN' -> (0.0,0), '-inf' -> (-0.0,1), '-+'), radix >= 19 where letters of inf/NaN are digits "
+              "('inf' radix 20, 'infinity' radix 30, 'nan^' radix 24), sep_i_hexfloat_prefix '1p1_a'. Props/C11Int.lean (integer "
+              "model, complete): int_complete_iff_partial holds with no exclusion; int_partial_prefix holds iff a digit was consumed "
+              "(int_partial_prefix_iff), witness '+a' -> (0,1) vs '+' -> Empty(1). Formats WITH a separator byte: partial_prefix is "
+              "not proved (only the counter-example class is exhibited).")
+LEVEL_NOTE = ("Trusted: Lean kernel; rustc; that the models mirror the Rust control flow (correspondence only). The integer parser with the "
+              "`format` feature (prefix/suffix/separators/leading-zero flags) has no Lean model: its four violation classes (I2-I4 in "
+              "the run) come from the correspondence alone.")
 
 
 def feature_sets(tier):
